@@ -5,7 +5,8 @@
    F <combo> <src>               -> OK 0|1   (marker_free)
    P <B|U> <combo> <sv> <sb> <src> <ctx> <visits> -> OK <output> | ERR   (whole pipeline model, Gen/JinjaMini.v)
    R <src>                       -> OK <data> <name> <value> <rest> | NONE   (stock 3.1 root step)
-   L <s> <prefix>                -> OK <text>                                 (do_lineprefix)
+   L <s> <prefix>                -> OK <text>                                 (do_lineprefix as translated from /repo)
+   LM <0|1> <s> <prefix>         -> OK <text>      (lineprefix_legacy / lineprefix_keep)
    V <token value> <rendering>   -> OK <text>      (variable_begin branch of subparse, rendered)
    B <token value> <r1> <r2> ... -> OK <text>      (block_begin branch of subparse, rendered)
    M <src>                       -> OK 0|1         (has_marker)
@@ -85,6 +86,7 @@ let () =
             (match root_step31 (parse src) with
              | None -> "NONE"
              | Some (((d, n), v), rest) -> String.concat " " ["OK"; show d; ascii n; show v; show rest])
+          | ["LM"; m; s; p] -> "OK " ^ show (lineprefix_m (m = "1") (parse s) (parse p))
           | ["L"; s; p] -> "OK " ^ show (do_lineprefix (parse s) (parse p))
           | ["V"; value; r] ->
             (match render_node (fun x -> x) builtin_filters (subparse_variable (code_marker [parse "123.123"] (parse value)) (parse r)) with
